@@ -160,6 +160,11 @@ type Raw struct {
 	Stopped                bool
 	Interrupt              byte
 	AllCycles              uint64
+	// Dirt is a harness annotation, not interpreter state: when non-zero, Load fills the interpreter's
+	// NON-architectural fields (per-step cycle counter, previous PC/bank, WDM argument, StepInfo scratch,
+	// the bus's debug/open-bus fields) with junk instead of zeroes; Save echoes it back. Nothing a Step
+	// does may depend on what an earlier Step left in those fields.
+	Dirt byte
 }
 
 func (r Raw) String() string {
@@ -188,8 +193,12 @@ type Machine interface {
 
 type Pri struct {
 	B *bus.Bus
-	C *cpu65c816.CPU
-	M *Mem
+	// C is the CPU object in use: cInit (made by New) or cFrom (made by InitFrom from cInit); Load selects
+	// cFrom for start states with Dirt != 0, so both ways of creating an interpreter are exercised
+	C            *cpu65c816.CPU
+	cInit, cFrom *cpu65c816.CPU
+	M            *Mem
+	dirt         byte
 }
 
 func NewPri() *Pri {
@@ -202,24 +211,36 @@ func NewPri() *Pri {
 		}
 	}
 	c, _ := cpu65c816.New(b)
-	return &Pri{b, c, m}
+	c2 := &cpu65c816.CPU{}
+	c2.InitFrom(c, b)
+	return &Pri{B: b, C: c, cInit: c, cFrom: c2, M: m}
 }
 func (p *Pri) Name() string { return "cpu65c816" }
 func (p *Pri) Mem() *Mem    { return p.M }
 func (p *Pri) Load(r Raw) {
+	p.C = p.cInit
+	if r.Dirt != 0 {
+		p.C = p.cFrom
+	}
 	c := p.C
-	onw, onpc := c.OnWDM, c.OnPC
-	*c = cpu65c816.CPU{Bus: p.B}
-	c.OnWDM, c.OnPC = onw, onpc
+	c.StepInfo = cpu65c816.StepInfo{}
+	c.Cycles, c.PRK, c.PPC, c.WDM, c.B = 0, 0, 0, 0, 0
 	c.PC, c.SP, c.RA, c.RX, c.RY, c.RD = r.PC, r.SP, r.RA, r.RX, r.RY, r.RD
 	c.RAh, c.RAl, c.RXl, c.RYl, c.RDBR, c.RK = r.RAh, r.RAl, r.RXl, r.RYl, r.RDBR, r.RK
 	c.C, c.Z, c.I, c.D, c.X, c.M, c.V, c.N = r.P&1, r.P>>1&1, r.P>>2&1, r.P>>3&1, r.P>>4&1, r.P>>5&1, r.P>>6&1, r.P>>7&1
 	c.E, c.Stopped, c.Interrupt, c.AllCycles = r.E, r.Stopped, r.Interrupt, r.AllCycles
+	p.dirt = r.Dirt
+	p.B.EA, p.B.Write = 0, false
+	if r.Dirt != 0 {
+		c.Cycles, c.PPC, c.PRK, c.WDM = 0x5A, 0xA5A5, 0x5A, 0xA5
+		c.StepInfo = cpu65c816.StepInfo{EA: 0xA5A5A5, Addr: 0x5A5A, Mode: 0x7F}
+		p.B.EA, p.B.Write = 0xA5A5A5, true
+	}
 }
 func (p *Pri) Save() Raw {
 	c := p.C
 	return Raw{c.PC, c.SP, c.RA, c.RX, c.RY, c.RD, c.RAh, c.RAl, c.RXl, c.RYl, c.RDBR, c.RK,
-		c.C&1 | c.Z&1<<1 | c.I&1<<2 | c.D&1<<3 | c.X&1<<4 | c.M&1<<5 | c.V&1<<6 | c.N&1<<7, c.E, c.Stopped, c.Interrupt, c.AllCycles}
+		c.C&1 | c.Z&1<<1 | c.I&1<<2 | c.D&1<<3 | c.X&1<<4 | c.M&1<<5 | c.V&1<<6 | c.N&1<<7, c.E, c.Stopped, c.Interrupt, c.AllCycles, p.dirt}
 }
 func (p *Pri) Step() (cy int, st bool, pn interface{}) {
 	defer func() { pn = recover() }()
@@ -237,15 +258,17 @@ func (p *Pri) Disasm() (o []byte, pn interface{}) {
 	return
 }
 func (p *Pri) TriggerIRQ()                 { p.C.TriggerIRQ() }
-func (p *Pri) SetOnWDM(f func(byte))       { p.C.OnWDM = f }
-func (p *Pri) SetOnPC(m map[uint32]func()) { p.C.OnPC = m }
+func (p *Pri) SetOnWDM(f func(byte))       { p.cInit.OnWDM, p.cFrom.OnWDM = f, f }
+func (p *Pri) SetOnPC(m map[uint32]func()) { p.cInit.OnPC, p.cFrom.OnPC = m, m }
 func (p *Pri) FlagBytes() [8]byte          { c := p.C; return [8]byte{c.C, c.Z, c.I, c.D, c.X, c.M, c.V, c.N} }
 
 // ---- alternative interpreter
 
 type Alt struct {
-	C *cpualt.CPU
-	M *Mem
+	C            *cpualt.CPU // in use: cInit (Init) or cFrom (InitFrom(cInit)), selected by Load like Pri
+	cInit, cFrom *cpualt.CPU
+	M            *Mem
+	dirt         byte
 }
 
 func NewAlt() *Alt {
@@ -257,11 +280,17 @@ func NewAlt() *Alt {
 		c.Bus.AttachReader(cell<<4, cell<<4|15, px[cell&1].Read)
 		c.Bus.AttachWriter(cell<<4, cell<<4|15, px[cell&1].Write)
 	}
-	return &Alt{c, m}
+	c2 := &cpualt.CPU{}
+	c2.InitFrom(c) // copies the populated bus tables too
+	return &Alt{C: c, cInit: c, cFrom: c2, M: m}
 }
 func (p *Alt) Name() string { return "cpualt" }
 func (p *Alt) Mem() *Mem    { return p.M }
 func (p *Alt) Load(r Raw) {
+	p.C = p.cInit
+	if r.Dirt != 0 {
+		p.C = p.cFrom
+	}
 	c := p.C
 	c.PC, c.SP, c.RA, c.RX, c.RY, c.RD = r.PC, r.SP, r.RA, r.RX, r.RY, r.RD
 	c.RAh, c.RAl, c.RXl, c.RYl, c.RDBR, c.RK = r.RAh, r.RAl, r.RXl, r.RYl, r.RDBR, r.RK
@@ -270,11 +299,17 @@ func (p *Alt) Load(r Raw) {
 	c.B, c.WDM, c.PPC, c.PRK, c.Cycles = 0, 0, 0, 0, 0
 	c.StepInfo = cpualt.StepInfo{}
 	c.Bus.M = 0
+	p.dirt = r.Dirt
+	if r.Dirt != 0 {
+		c.Cycles, c.PPC, c.PRK, c.WDM = 0x5A, 0xA5A5, 0x5A, 0xA5
+		c.StepInfo = cpualt.StepInfo{EA: 0xA5A5A5, Addr: 0x5A5A, Mode: 0x7F}
+		c.Bus.M = 0xA5
+	}
 }
 func (p *Alt) Save() Raw {
 	c := p.C
 	return Raw{c.PC, c.SP, c.RA, c.RX, c.RY, c.RD, c.RAh, c.RAl, c.RXl, c.RYl, c.RDBR, c.RK,
-		c.C&1 | c.Z&1<<1 | c.I&1<<2 | c.D&1<<3 | c.X&1<<4 | c.M&1<<5 | c.V&1<<6 | c.N&1<<7, c.E, c.Stopped, c.Interrupt, c.AllCycles}
+		c.C&1 | c.Z&1<<1 | c.I&1<<2 | c.D&1<<3 | c.X&1<<4 | c.M&1<<5 | c.V&1<<6 | c.N&1<<7, c.E, c.Stopped, c.Interrupt, c.AllCycles, p.dirt}
 }
 func (p *Alt) Step() (cy int, st bool, pn interface{}) {
 	defer func() { pn = recover() }()
@@ -294,6 +329,6 @@ func (p *Alt) Disasm() (o []byte, pn interface{}) {
 	return
 }
 func (p *Alt) TriggerIRQ()                 { p.C.TriggerIRQ() }
-func (p *Alt) SetOnWDM(f func(byte))       { p.C.OnWDM = f }
-func (p *Alt) SetOnPC(m map[uint32]func()) { p.C.OnPC = m }
+func (p *Alt) SetOnWDM(f func(byte))       { p.cInit.OnWDM, p.cFrom.OnWDM = f, f }
+func (p *Alt) SetOnPC(m map[uint32]func()) { p.cInit.OnPC, p.cFrom.OnPC = m, m }
 func (p *Alt) FlagBytes() [8]byte          { c := p.C; return [8]byte{c.C, c.Z, c.I, c.D, c.X, c.M, c.V, c.N} }
